@@ -33,6 +33,20 @@ type c07Input struct {
 	// no ClientCAs: nothing is configured for client certificates); Shift moves the server's configured clock by whole years
 	Roots string `json:"roots,omitempty"`
 	Shift int    `json:"shift,omitempty"`
+	// Via: how the server's configuration reaches the connection (tk.EPConfig.Via); SNI1 / SNI2: the server name in the
+	// client's hello (SNI2: in the hello that answers the HelloVerifyRequest, datagram stack; empty = SNI1)
+	Via  string `json:"via,omitempty"`
+	SNI1 string `json:"sni1,omitempty"`
+	SNI2 string `json:"sni2,omitempty"`
+}
+
+// c07SNI is a server_name extension (the raw extensions block of a hello that carries nothing else).
+func c07SNI(name string) []byte {
+	if name == "" {
+		return nil
+	}
+	n := len(name)
+	return append([]byte{0, 0, byte((n + 5) >> 8), byte(n + 5), byte((n + 3) >> 8), byte(n + 3), 0, byte(n >> 8), byte(n)}, name...)
 }
 
 var c07Policies = []string{"NoClientCert", "RequestClientCert", "RequireAnyClientCert", "VerifyClientCertIfGiven", "RequireAndVerifyClientCert", "RequireAndVerifyAnyKeyUsageClientCert"}
@@ -94,6 +108,7 @@ type c07Result struct {
 	sid      []byte
 	master   []byte
 	deliv    bool
+	judged   int // the policy the connection is judged under
 }
 
 // one connection of the puppet client against a real server configured with `policy`
@@ -105,14 +120,15 @@ func c07Conn(in c07Input, policy int, reg *tk.Registry, offerSID, offerMaster []
 		}
 		return 0
 	}
-	sc := tk.EPConfig{Ident: "srv", Auth: policy, Cache: "shared", Roots: in.Roots, TimeShiftYears: in.Shift}
+	sc := tk.EPConfig{Ident: "srv", Auth: policy, Cache: "shared", Roots: in.Roots, TimeShiftYears: in.Shift, Via: in.Via}
+	finalSNI := in.SNI1
 	chain, sig, enc := c07Chain(in.Chain)
 	ecdhe := puppet.IsECDHE(in.Suite)
 	var cvSig, cvTBS []byte
 	certMsg, cvMsg, ckxOK, finOK := false, false, false, false
 	script := func(p *puppet.Peer) {
 		p.Sig, p.Enc = sig, enc
-		o := puppet.CHOpt{Suites: []uint16{in.Suite}, SID: offerSID}
+		o := puppet.CHOpt{Suites: []uint16{in.Suite}, SID: offerSID, Ext: c07SNI(in.SNI1)}
 		if offerSID != nil {
 			p.ForceMaster = offerMaster
 		}
@@ -120,6 +136,9 @@ func c07Conn(in c07Input, policy int, reg *tk.Registry, offerSID, offerMaster []
 		p.Absorb(5)
 		if p.DTLS && p.Cookie != nil && p.PeerHello == nil {
 			o.Cookie = p.Cookie
+			if in.SNI2 != "" {
+				o.Ext, finalSNI = c07SNI(in.SNI2), in.SNI2
+			}
 			p.SendClientHello(o)
 			p.Absorb(5)
 		}
@@ -180,6 +199,11 @@ func c07Conn(in c07Input, policy int, reg *tk.Registry, offerSID, offerMaster []
 	} else if o.Hung {
 		r.direct = "hang"
 	}
+	// the policy in force is the one of the configuration that the hello which entered the handshake selects
+	if in.Via == "host-lax" && finalSNI == "lax.example" {
+		policy = 0
+	}
+	r.judged = policy
 	r.accepted = o.Res.Complete && o.Res.Err == ""
 	r.peerN, r.chainsN = len(o.Res.PeerCerts), o.Res.VerifiedChains
 	r.deliv = len(o.Read) > 0
@@ -232,7 +256,7 @@ func c07AddCase(out *emit.Out, scenario string, in c07Input) {
 		b := func(i int) string { return emit.Bool(r.view[i] == 1) }
 		out.Add(emit.Case{Scenario: scenario + "/" + in.Stack, Trivial: false, Input: in, Direct: r.direct,
 			Observed: map[string]interface{}{"view": r.view, "accepted": r.accepted, "peer_certs": r.peerN, "verified_chains": r.chainsN},
-			Coq: fmt.Sprintf("SrvFullCase %s %s (mkCV %s %d%%nat %s %s %s %s %s %s %s %s) %s %s %s", c07Policies[in.Policy], emit.Bool(ecdhe),
+			Coq: fmt.Sprintf("SrvFullCase %s %s (mkCV %s %d%%nat %s %s %s %s %s %s %s %s) %s %s %s", c07Policies[r.judged], emit.Bool(ecdhe),
 				b(0), r.view[1], b(2), b(3), b(4), b(5), b(6), b(7), b(8), b(9), emit.Bool(r.accepted), emit.Bool(r.peerN > 0), emit.Bool(r.chainsN > 0))})
 		return
 	}
@@ -319,6 +343,24 @@ func runC07(p params) error {
 					}
 				}
 				c07AddCase(out, "clock-after-validity", c07Input{Stack: st, Suite: su, Policy: pol, Chain: "cli", CV: "ok", Shift: 20})
+				// the configuration reaches the connection through Clone, or through GetConfigForClient handing out a clone
+				for _, via := range []string{"clone", "host-clone"} {
+					for _, ch := range []string{"none", "cli", "cli-untrusted"} {
+						c07AddCase(out, "via-"+via, c07Input{Stack: st, Suite: su, Policy: pol, Chain: ch, CV: "ok", Via: via})
+					}
+				}
+				// a callback that serves one host name with a configuration asking for no certificate and answers nil for every
+				// other: the policy in force is the one selected by the hello that enters the handshake (datagram stack: the
+				// hello that carries the cookie, whatever the cookie-less one said)
+				snis := [][2]string{{"strict.example", ""}, {"lax.example", ""}}
+				if st == "dtlcp" {
+					snis = append(snis, [2]string{"lax.example", "strict.example"}, [2]string{"strict.example", "lax.example"}, [2]string{"lax.example", "lax.example"})
+				}
+				for _, sn := range snis {
+					for _, ch := range []string{"none", "cli"} {
+						c07AddCase(out, "host-lax-"+sn[0]+"-"+sn[1], c07Input{Stack: st, Suite: su, Policy: pol, Chain: ch, CV: "ok", Via: "host-lax", SNI1: sn[0], SNI2: sn[1]})
+					}
+				}
 				// a session created with a certificate, then offered on another suite by a client that presents none
 				if !puppet.IsECDHE(su) && pol >= 3 {
 					other := map[uint16]uint16{0xe053: 0xe013, 0xe013: 0xe053}[su]
